@@ -9,8 +9,23 @@ import (
 func dbg(repo, rel string) {
 	p, err := core.Load(repo, []string{rel}, false, nil)
 	fmt.Println(err, p.Loaded)
-	fmt.Println(len(p.SrcFuncs()), len(p.FuncsOfPkg(rel)))
-	for _, f := range p.SrcFuncs() {
-		fmt.Println(core.QualName(f))
+	funcs := p.FuncsOfPkg(rel)
+	if len(funcs) == 0 {
+		return
 	}
+	wb := core.NewWriteBack(funcs[0].Pkg, funcs)
+	wb.Run()
+	fmt.Println("record types:", wb.RecordTypes())
+	fmt.Println("savers:", wb.SaverNames())
+	n := 0
+	for _, fn := range funcs {
+		for _, f := range wb.Findings[fn] {
+			if wb.ReadOnly(fn) {
+				continue
+			}
+			n++
+			fmt.Printf("%s: %s %s; mutation at %s; return at %s\n", core.FuncName(fn), f.Record, f.What, p.Pos(f.Mutation.Pos()), p.Pos(f.Return.Pos()))
+		}
+	}
+	fmt.Println("findings:", n)
 }
